@@ -52,6 +52,8 @@ def cases(rng, tier):
         full = (n <= 3) if tier == "quick" else (n <= 5)
         for (x, y, k) in _slices(n, rng, full):
             add(a, {"kind": "slice", "a0": x, "b0": y, "k": k}, dt="int64" if full else None)
+        # as many positions as the array has cells, in a narrow (also unsigned 8-bit) index dtype: positions, not a mask
+        add(a, {"kind": "list", "is": [rng.randint(0, n - 1) for _ in range(n)], "idt": rng.choice(["uint8", "uint8", "int8", "uint16"])})
         # steps far beyond the array (and beyond 32 bits): one element, like any step >= the length
         for k in rng.sample([2 ** 31 - 1, 2 ** 31, 2 ** 31 + 7, -(2 ** 31 - 2), -(2 ** 31), 2 ** 32 + 1, 2 ** 62, -(2 ** 62), 2 ** 63 - 1], 2):
             add(a, {"kind": "slice", "a0": rng.choice([None, None, 0, 1, -1]), "b0": None, "k": k})
@@ -177,7 +179,7 @@ def run_impl(p):
             # (the position as a Python int or as a numpy integer scalar of some width that holds it)
             return r[wrap(gens.int_form(ix["i"], gens.INT_FORMS[(h + abs(ix["i"])) % len(gens.INT_FORMS)]))]
         if k == "list":
-            if len(ix["is"]) % 2 == 0:
+            if len(ix["is"]) % 2 == 0 and "idt" not in ix:
                 return r[list(ix["is"])]
             ia = np.array(ix["is"], dtype=[np.int64, np.int32, np.int16][len(ix["is"]) % 3] if max([abs(i) for i in ix["is"]] + [0]) < 30000 else np.int64)
             if "idt" in ix:
